@@ -438,7 +438,11 @@ pub fn gen_unused_program(r: &mut Rng) -> (String, std::collections::BTreeMap<&'
     for _ in 0..r.range(1, 4) {
         let v = names[r.below(nv)];
         let w = names[r.below(nv)];
-        let line = match r.below(22) {
+        let line = match r.below(26) {
+            22 => format!("{v}:m().y = 1"),
+            23 => format!("{v}().y = 1"),
+            24 => format!("{v}.f().g = {w}"),
+            25 => format!("{v}[1]().k.j = 1"),
             0 => format!("{v}.f = 1"),
             1 => format!("{v}[1] = x"),
             2 => format!("{v}[\"k\"] = {w}"),
